@@ -69,15 +69,17 @@ type RunOptions struct {
 type pathJob struct{ prefix []int64 }
 
 type worker struct {
-	feas *SolverProc
+	feas    *SolverProc
+	feasNew *SolverProc
 }
 
 func newWorker(opts *RunOptions) *worker {
-	return &worker{feas: NewSolverProc(CfgZ3)}
+	return &worker{feas: NewSolverProc(CfgZ3), feasNew: NewSolverProc(CfgZ3New)}
 }
 
 func (w *worker) close() {
 	w.feas.Close()
+	w.feasNew.Close()
 }
 
 // DefaultConfigs is the solver portfolio raced on every obligation.
@@ -96,8 +98,9 @@ type pathOutcome struct {
 	err      *EngineErr
 }
 
-func (e *Engine) runPath(fn *ssa.Function, prefix []int64, feas *SolverProc, opts *RunOptions, concrete map[string]*big.Int) (out pathOutcome) {
-	x := e.NewExec(prefix, feas)
+func (e *Engine) runPath(fn *ssa.Function, prefix []int64, w *worker, opts *RunOptions, concrete map[string]*big.Int) (out pathOutcome) {
+	x := e.NewExec(prefix, w.feas)
+	x.solverNew = w.feasNew
 	x.concrete = concrete
 	x.stepLimit = opts.StepLimit
 	out.x = x
@@ -182,7 +185,7 @@ func (e *Engine) RunHarness(fn *ssa.Function, opts *RunOptions) *HarnessResult {
 				if w == nil {
 					w = newWorker(opts)
 				}
-				po := e.runPath(fn, job.prefix, w.feas, opts, nil)
+				po := e.runPath(fn, job.prefix, w, opts, nil)
 				results := e.dischargePath(fn, &po, myPath, w, opts)
 				mu.Lock()
 				for _, alt := range po.x.alts {
@@ -320,7 +323,7 @@ func (e *Engine) dischargePath(fn *ssa.Function, po *pathOutcome, pathNo int, w 
 	submit := func(p *pending) bool {
 		for ; p.be < len(bes); p.be++ {
 			be := bes[p.be]
-			cone := coneOfInfluence(p.ob.Path, p.ob.Cond)
+			cone := coneOfInfluence(p.ob.Path, p.ob.Cond, x.inputs)
 			q := BuildQuery(x.ts, be, p.ob.ID, cone, p.ob.Cond, nil, 0)
 			if q.Err != nil {
 				p.r.Note += fmt.Sprintf("[%s lowering: %v] ", be, q.Err)
@@ -388,7 +391,10 @@ func (e *Engine) dischargePath(fn *ssa.Function, po *pathOutcome, pathNo int, w 
 			q := BuildQuery(x.ts, be, ob.ID, ob.Path, ob.Cond, x.inputs, verdict.Profile)
 			full := <-opts.Pool.Submit([]string{q.Script}, q.Vars, budgets)
 			r.Verdict = "unconfirmed"
-			if full.Result == "sat" {
+			if ob.Kind == "lemma" {
+				r.Model = full.Model
+				r.Note += " stage lemma refuted by the solver (engine-only obligation; confirmation is attempted through the end-to-end fallback harnesses)"
+			} else if full.Result == "sat" {
 				r.Model = full.Model
 				e.confirmNatively(fn, x, ob, r, opts)
 			} else if full.Result == "unsat" {
